@@ -16,6 +16,7 @@ import (
 	"compress/gzip"
 	"encoding/json"
 	"fmt"
+	"html"
 	"io"
 	"log"
 	"net"
@@ -109,6 +110,7 @@ func parseFixture(text string) (*fsFixture, error) {
 func fsToken(ino int) string { return fmt.Sprintf("@@%d@@", ino) }
 
 var fsTokenRe = regexp.MustCompile(`@@(\d+)@@`)
+var fsHTMLNameRe = regexp.MustCompile(`(?s)<span class="name">(.*?)</span>`)
 
 // materialise writes the fixture below T. The file at casketfilePath (if any) gets
 // casketfileText (which carries the token of that entry in a comment).
@@ -348,6 +350,14 @@ func fsRender(method string, resp *http.Response, body []byte, rerr error, headE
 			sort.Strings(names)
 			return "L\t" + strings.Join(names, ","), "listing"
 		}
+	}
+	if st == 200 && strings.HasPrefix(resp.Header.Get("Content-Type"), "text/html") && bytes.Contains(decoded, []byte(`<div class="listing">`)) {
+		var names []string
+		for _, m := range fsHTMLNameRe.FindAllSubmatch(decoded, -1) {
+			names = append(names, hx.HS(html.UnescapeString(string(m[1]))))
+		}
+		sort.Strings(names)
+		return "L\t" + strings.Join(names, ","), "listing-html"
 	}
 	if st == 200 {
 		return "F\t" + ce + "\t-", "empty-200"
